@@ -81,7 +81,8 @@ class ScopeInfo:
                         return state | {(kind, p, var)}
             elif o['cls'] == 'CXXMemberCallExpr':
                 cal = fn.callee(n)
-                if cal and cal['name'] in ('lock', 'unlock') and o.get('obj'):
+                if cal and cal['name'] in ('lock', 'unlock') and o.get('obj') and not cal['params'] \
+                        and (fn.tu.type(cal.get('ret')) or {}).get('s') == 'void':
                     objp = path(fn, o['obj'], resolve_refs=True)
                     # call on a tracked scope variable?
                     from .paths import root_var_id
